@@ -92,8 +92,9 @@ func randFS(r *hx.Rand) op {
 }
 
 func randText(r *hx.Rand, clean bool) string {
+	_ = clean // every text class is checked to the end now (exotic white space included)
 	if r.Intn(2) == 0 {
-		if !clean && r.Intn(3) == 0 {
+		if r.Intn(4) == 0 {
 			return r.Pick(dirtyTexts)
 		}
 		return r.Pick(cleanTexts)
@@ -101,7 +102,7 @@ func randText(r *hx.Rand, clean bool) string {
 	n := r.Intn(9)
 	var sb strings.Builder
 	for i := 0; i < n; i++ {
-		if !clean && r.Intn(8) == 0 {
+		if r.Intn(10) == 0 {
 			sb.WriteString(r.Pick(dirtyAlpha))
 		} else {
 			sb.WriteString(r.Pick(cleanAlpha))
@@ -180,8 +181,13 @@ func randOp(r *hx.Rand, clean, allowBig, beforePreamble bool) []op {
 				continue
 			}
 			return []op{{K: "L", I: randIdx(r, true, false), T: randText(r, true)}}
-		case k < 59:
+		case k < 57:
 			return []op{{K: "M", I: randIdx(r, clean, false), T: r.Pick(modKinds)}}
+		case k < 59:
+			if beforePreamble {
+				continue
+			}
+			return []op{{K: "K", T: randText(r, clean)}}
 		case k < 65:
 			return []op{{K: "N"}}
 		case k < 73:
